@@ -87,7 +87,7 @@ def runtime(kinds, mul=False):
     return asm(items)
 
 
-def artifact(kinds, mul=False, tests=("check_p",)):
+def artifact(kinds, mul=False, tests=("check_p",), setup=False):
     from eth_hash.auto import keccak
 
     rt = runtime(kinds, mul)
@@ -104,6 +104,10 @@ def artifact(kinds, mul=False, tests=("check_p",)):
         sig = f"{t}({argt})"
         abi.append({"type": "function", "name": t, "inputs": inputs, "outputs": [], "stateMutability": "nonpayable"})
         mids[sig] = keccak(sig.encode())[:4].hex()
+    if setup:
+        # setUp() runs the same code with calldata = selector only: x = 0, i.e. the `x == 0` branch
+        abi.append({"type": "function", "name": "setUp", "inputs": [], "outputs": [], "stateMutability": "nonpayable"})
+        mids["setUp()"] = keccak(b"setUp()")[:4].hex()
     return {
         "abi": abi,
         "bytecode": {"object": "0x" + cr.hex(), "sourceMap": "", "linkReferences": {}},
@@ -116,10 +120,13 @@ def artifact(kinds, mul=False, tests=("check_p",)):
     }
 
 
-def make_project(root, kinds, mul=False, tests=("check_p",)):
+def make_project(root, paths, mul=False, tests=("check_p",), setup=False):
+    """paths[j] = how the path that halmos numbers path_id j ends (halmos explores the
+    fall-through branch first, then the jump targets from the last comparison backwards)."""
+    kinds = list(reversed(paths))
     root = Path(root)
     (root / "out" / "T.sol").mkdir(parents=True, exist_ok=True)
-    (root / "out" / "T.sol" / "T.json").write_text(json.dumps(artifact(kinds, mul, tests)))
+    (root / "out" / "T.sol" / "T.json").write_text(json.dumps(artifact(kinds, mul, tests, setup)))
     (root / "foundry.toml").write_text("[profile.default]\n")
     binp = root / "bin"
     binp.mkdir(exist_ok=True)
@@ -129,7 +136,7 @@ def make_project(root, kinds, mul=False, tests=("check_p",)):
     return root
 
 
-def run_halmos(root, script, early_exit=False, cache_solver=False, timeout_ms=400, stale_read=None,
+def run_halmos(root, script, early_exit=False, cache_solver=False, timeout_ms=3000, stale_read=None,
                extra=(), wall=120, threads=None):
     """Runs halmos on the project with the scripted solver. Returns dict(rc, status{funsig:label}, json, log, calls)."""
     root = Path(root)
